@@ -61,12 +61,20 @@ def main():
         run.add_tlc("AttitudeLoop", res)
         tvs = sorted((st["tv"] for st in parse_dump(res["dump"])), key=lambda t: json.dumps(t, sort_keys=True))
         rnd = random.Random(run.seed)
-        n = 12 if tier == "quick" else 160
-        # stratified: every cell x init flag represented, rest random
+        n = 16 if tier == "quick" else 200
+        # stratified: every (cell, initialise-or-zero) pair and every rate setting represented, rest random
         strata = {}
         for tv in tvs:
             strata.setdefault((tv["cell"], tv["init"]), []).append(tv)
-        chosen = [rnd.choice(v) for k, v in sorted(strata.items())]
+        rates = sorted({tuple(tv["rates"]) for tv in tvs})
+        chosen = []
+        for i, (k, v) in enumerate(sorted(strata.items())):
+            want = rates[i % len(rates)]
+            chosen.append(rnd.choice([tv for tv in v if tuple(tv["rates"]) == want] or v))
+        for r in rates:                                  # every rate setting at least twice (once per start mode if possible)
+            for init in (0, 1):
+                if not any(tuple(tv["rates"]) == r and tv["init"] == init for tv in chosen):
+                    chosen.append(rnd.choice([tv for tv in tvs if tuple(tv["rates"]) == r and tv["init"] == init]))
         pool = [tv for tv in tvs if tv not in chosen]
         chosen += rnd.sample(pool, max(0, n - len(chosen)))
         cfgs = [cfg_of(tv, i + 1) for i, tv in enumerate(chosen)]
